@@ -1,13 +1,20 @@
 import MosnVerif.Lemmas.ConfigPairs
+import MosnVerif.Lemmas.ConfigDir
+import MosnVerif.Lemmas.ConfigPairs2
 /-!
 # C19 — configuration survives dump and reload unchanged (property theorems only)
 
 The generic JSON codec of encoding/json is modelled by a field-table-driven encoder / decoder (`Shape`); the field tables
-are **regenerated** from pkg/config/v2 (`Gen.ConfigGraph`).  Theorems: the generic cycle `decode ∘ encode` is the
-normalisation `norm` and is stable from the first pass on — for *every* field table, and every struct of the
-regenerated graph without custom marshalers is such a table; the fixpoint law `M (U (M (U w))) = M (U w)` for the three
-representative custom pairs (FilterChain, Host / metadata, RetryPolicy / DurationConfig), whose hand-written shapes are
-checked against the regenerated tables; and `ParseDuration ∘ String = id` for the digit-level model of package time.
+are **regenerated** from pkg/config/v2 (`Gen.ConfigGraph`), and so is the classification of the custom (Un)MarshalJSON
+pairs from their method bodies (`Gen.ConfigPairs`: mirror wrappers = the generic codec of their config, metadata
+wrappers = shape `metaS`, single-field delegation = shape `boxed`).  Theorems: the cycle `decode ∘ encode` is the
+normalisation `norm` and is stable from the first pass on — for *every* shape, and every struct of the regenerated graph
+that unfolds (84 of 100: all but those containing Listener, FilterChain, the two directory pairs, or opaque external
+types) is such a shape, customs included and nested; the fixpoint law `M (U (M (U w))) = M (U w)` for the hand-written
+pairs FilterChain, Host, RetryPolicy / DurationConfig, every metadata wrapper (ClusterWeight, RouteAction, Router),
+CircuitBreakers, Listener, tied to the regenerated tables; `ParseDuration ∘ String = id` for the digit-level model of
+package time; and the directory ("dynamic") mode of ClusterManagerConfig / RouterConfiguration with the file-name
+operations regenerated from the two MarshalJSON bodies, closed over the regenerated Cluster / VirtualHost codecs.
 -/
 namespace MosnVerif.Props.C19
 open MosnVerif.Model MosnVerif.Model.ConfigCodec MosnVerif.Model.GoTypes
@@ -31,8 +38,11 @@ theorem generic_dump_stable (sh : Shape) (hk : keysOK sh = true) (w : Json) (v :
   have hw := dw sh hk w v h
   exact ⟨norm sh v, rt sh hk v hw, en sh v hw⟩
 
-/-- **the regenerated field tables are instances**: every struct of pkg/config/v2 without custom marshalers, embedded
-fields or external field types unfolds to a shape with distinct member keys — so `generic_roundtrip` applies to it. -/
+/-- **the regenerated field tables are instances**: every struct of pkg/config/v2 that unfolds — no embedded fields or
+opaque external field types; custom pairs only where the extractor recognised both method bodies as a mirror wrapper,
+a metadata wrapper (the metadata member must be an `omitempty` `*MetadataConfig`: part of `keysOK`) or a single-field
+delegation — unfolds to a shape with distinct member keys, so `generic_roundtrip` applies to it: among them `Cluster`
+and `VirtualHost` with everything nested in them. -/
 theorem regenerated_tables_generic :
     genericStructs.all (fun s => match shapeOf s with | some sh => keysOK sh | none => false) = true := by
   decide +kernel
@@ -69,6 +79,310 @@ theorem mirror_wrapper_fixpoint {δ : Type} (sh : Shape) (hk : keysOK sh = true)
     (hput : ∀ c, put (proj c) c = c) (w : Json) (c : CVal) (h : decode sh w = some c) :
     ∃ c', decode sh (encode sh (put (proj c) c)) = some c' ∧ encode sh (put (proj c') c') = encode sh (put (proj c) c) :=
   mirror_fixpoint sh hk proj put hput w c h
+
+/-! ## metadata wrappers, CircuitBreakers, Listener -/
+
+/-- **metadata_wrapper_fixpoint** (`ClusterWeight`, `RouteAction`, `Router`, `Host`: `UnmarshalJSON` derives an
+`api.Metadata` from the `*MetadataConfig` member of the embedded config, `MarshalJSON` rebuilds the member from it): for
+EVERY field table with case-distinct keys and every position `i` of an `omitempty` `*MetadataConfig` member, and every
+wire value the pair accepts, `M (U (M (U w))) = M (U w)`.  Members that are mirrored into `json:"-"` fields and copied
+back (`RouteAction.Timeout` ↔ `timeout`, an `api.DurationConfig` = shape `.dur`) are the identity on the config. -/
+theorem metadata_wrapper_fixpoint (fs : Fields) (i : Nat) (hk : keysOKF fs = true) (hm : metaAt fs i = true)
+    (w : Json) (x : MetaV) (hU : metaU fs i w = some x) :
+    ∃ y, metaU fs i (metaM fs i x) = some y ∧ metaM fs i y = metaM fs i x :=
+  meta_fixpoint fs i hk hm w x hU
+
+/-- the law for the **regenerated** field table of config struct `s` with its metadata member `key` -/
+theorem wrapper_instance (s key : String)
+    (hreg : (match embFields s with | some fs => keysOKF fs && metaAt fs (fs.indexOf key) | none => false) = true)
+    (fs : Fields) (h : embFields s = some fs) (w : Json) (x : MetaV) (hU : metaU fs (fs.indexOf key) w = some x) :
+    ∃ y, metaU fs (fs.indexOf key) (metaM fs (fs.indexOf key) x) = some y ∧
+      metaM fs (fs.indexOf key) y = metaM fs (fs.indexOf key) x := by
+  rw [h] at hreg
+  simp only [Bool.and_eq_true] at hreg
+  exact meta_fixpoint fs _ hreg.1 hreg.2 w x hU
+
+/-- **ClusterWeight** over the regenerated `ClusterWeightConfig` (`metadata_match` ↔ `MetadataMatch`) -/
+theorem clusterweight_fixpoint (fs : Fields) (h : embFields "ClusterWeightConfig" = some fs) (w : Json) (x : MetaV)
+    (hU : metaU fs (fs.indexOf "metadata_match") w = some x) :
+    ∃ y, metaU fs (fs.indexOf "metadata_match") (metaM fs (fs.indexOf "metadata_match") x) = some y ∧
+      metaM fs (fs.indexOf "metadata_match") y = metaM fs (fs.indexOf "metadata_match") x :=
+  wrapper_instance "ClusterWeightConfig" "metadata_match" (by decide +kernel) fs h w x hU
+
+/-- **RouteAction** over the regenerated `RouterActionConfig` (`metadata_match` ↔ `MetadataMatch`, `timeout` ↔ `Timeout`) -/
+theorem routeaction_fixpoint (fs : Fields) (h : embFields "RouterActionConfig" = some fs) (w : Json) (x : MetaV)
+    (hU : metaU fs (fs.indexOf "metadata_match") w = some x) :
+    ∃ y, metaU fs (fs.indexOf "metadata_match") (metaM fs (fs.indexOf "metadata_match") x) = some y ∧
+      metaM fs (fs.indexOf "metadata_match") y = metaM fs (fs.indexOf "metadata_match") x :=
+  wrapper_instance "RouterActionConfig" "metadata_match" (by decide +kernel) fs h w x hU
+
+/-- **Router** over the regenerated `RouterConfig` (`metadata` ↔ `Metadata`) -/
+theorem router_fixpoint (fs : Fields) (h : embFields "RouterConfig" = some fs) (w : Json) (x : MetaV)
+    (hU : metaU fs (fs.indexOf "metadata") w = some x) :
+    ∃ y, metaU fs (fs.indexOf "metadata") (metaM fs (fs.indexOf "metadata") x) = some y ∧
+      metaM fs (fs.indexOf "metadata") y = metaM fs (fs.indexOf "metadata") x :=
+  wrapper_instance "RouterConfig" "metadata" (by decide +kernel) fs h w x hU
+
+/-- **CircuitBreakers** (the bare `[]Thresholds`) over the regenerated `Thresholds` table -/
+theorem circuitbreakers_fixpoint (th : Shape) (h : shapeOf "Thresholds" = some th) (w : Json) (x : CVal)
+    (hU : cbU th w = some x) : ∃ y, cbU th (cbM th x) = some y ∧ cbM th y = cbM th x := by
+  have hreg : (match shapeOf "Thresholds" with | some sh => keysOK sh | none => false) = true := by decide +kernel
+  rw [h] at hreg
+  exact cb_fixpoint th hreg w x hU
+
+/-- **Listener** over the regenerated `ListenerConfig`: empty address and networks other than tcp / udp / unix are
+rejected, `network` is defaulted and lower-cased by the first `UnmarshalJSON`, the address is replaced by the resolver's
+answer; for every resolver whose answers are non-empty and resolve to themselves (`ResolverOK`: `net.Resolve*Addr` of
+`Addr.String()`), what `MarshalJSON` writes after one `UnmarshalJSON` is a fixpoint -/
+theorem listener_fixpoint (fs : Fields) (h : embFields "ListenerConfig" = some fs)
+    (R : String → String → Option String) (hR : ResolverOK R) (w : Json) (x : LnV)
+    (hU : lnU fs (fs.indexOf "address") (fs.indexOf "network") R w = some x) :
+    ∃ y, lnU fs (fs.indexOf "address") (fs.indexOf "network") R (lnM fs (fs.indexOf "address") x) = some y ∧
+      lnM fs (fs.indexOf "address") y = lnM fs (fs.indexOf "address") x := by
+  have hreg : (match embFields "ListenerConfig" with
+    | some fs => keysOKF fs && strAt fs (fs.indexOf "address") "address" && strAt fs (fs.indexOf "network") "network"
+    | none => false) = true := by decide +kernel
+  rw [h] at hreg
+  simp only [Bool.and_eq_true] at hreg
+  exact ln_fixpoint fs _ _ hreg.1.1 hreg.1.2 hreg.2 R hR w x hU
+
+/-! the Go structs behind these pairs, in the regenerated graph: an embedded config + derived `json:"-"` fields only -/
+example : (G.find "ClusterWeight").map (fun d => d.fields.map (fun f => (f.name, f.json, f.embedded))) =
+      some [("ClusterWeightConfig", "", true), ("MetadataMatch", "-", false)] ∧
+    (G.find "RouteAction").map (fun d => d.fields.map (fun f => (f.name, f.json, f.embedded))) =
+      some [("RouterActionConfig", "", true), ("MetadataMatch", "-", false), ("Timeout", "-", false)] ∧
+    (G.find "Router").map (fun d => d.fields.map (fun f => (f.name, f.json, f.embedded))) =
+      some [("RouterConfig", "", true), ("Metadata", "-", false)] := by decide +kernel
+example : (G.find "CircuitBreakers").map (fun d => d.fields.map (fun f => (f.name, f.json, f.embedded, f.ty))) =
+      some [("Thresholds", "", false, .slice (.named "Thresholds"))] := by decide +kernel
+example : (G.find "Listener").map (fun d => d.fields.map (fun f => (f.name, f.json, f.embedded))) =
+      some [("ListenerConfig", "", true), ("Addr", "-", false), ("ListenerTag", "-", false), ("ListenerScope", "-", false),
+            ("PerConnBufferLimitBytes", "-", false), ("InheritListener", "-", false), ("InheritPacketConn", "-", false),
+            ("Remain", "-", false)] := by decide +kernel
+/-- `timeout` of `RouterActionConfig` is an `api.DurationConfig` (never omitted); `Host` is the fourth wrapper -/
+example : (match embFields "RouterActionConfig" with
+      | some fs => (match fs.get? (fs.indexOf "timeout") with
+        | some (k, o, sh) => k == "timeout" && o && sh == .dur
+        | none => false)
+      | none => false) = true ∧
+    (match embFields "HostConfig" with | some fs => keysOKF fs && metaAt fs (fs.indexOf "metadata") | none => false) = true := by
+  decide +kernel
+
+/-! non-vacuity -/
+
+/-- ClusterWeight: a non-string `mosn.lb` value is dropped by the first load; then stable -/
+example : (match embFields "ClusterWeightConfig" with
+    | some fs =>
+      (match metaU fs 2 (.obj [("name", .str "c"), ("metadata_match", .obj [("filter_metadata", .obj [("mosn.lb",
+          .obj [("v", .str "1"), ("n", .num "2")])])])]) with
+      | some x => metaM fs 2 x == .obj [("name", .str "c"), ("metadata_match", .obj [("filter_metadata", .obj [("mosn.lb",
+          .obj [("v", .str "1")])])])]
+      | none => false)
+    | none => false) = true := by decide +kernel
+/-- RouteAction: `90s` is written as `1m30s`, an absent timeout as `0s`, empty metadata disappears -/
+example : (match embFields "RouterActionConfig" with
+    | some fs =>
+      (match metaU fs 6 (.obj [("cluster_name", .str "c"), ("timeout", .str "90s"), ("metadata_match", .obj [])]) with
+      | some x => metaM fs 6 x == .obj [("cluster_name", .str "c"), ("timeout", .str "1m30s")]
+      | none => false) &&
+      (match metaU fs 6 (.obj []) with
+      | some x => metaM fs 6 x == .obj [("timeout", .str "0s")]
+      | none => false)
+    | none => false) = true := by decide +kernel
+/-- CircuitBreakers: zero thresholds vanish behind `omitempty`, `null` stays `null` -/
+example : (match shapeOf "Thresholds" with
+    | some th =>
+      (match cbU th (.arr [.obj [("max_connections", .num "0"), ("max_retries", .num "3")]]) with
+      | some x => cbM th x == .arr [.obj [("max_retries", .num "3")]] | none => false) &&
+      (match cbU th .null with | some x => cbM th x == .null | none => false) &&
+      (cbU th (.obj [])).isNone
+    | none => false) = true := by decide +kernel
+/-- Listener: `network` absent ⇒ `tcp`, `TCP` ⇒ `tcp`; the address becomes the resolver's answer; empty address, `sctp`
+and an unresolvable address are errors.  (`R`: `localhost:80` ↦ `127.0.0.1:80` ↦ itself: `ResolverOK` on these.) -/
+example : (match embFields "ListenerConfig" with
+    | some fs =>
+      let R : String → String → Option String := fun _ a =>
+        if a == "localhost:80" || a == "127.0.0.1:80" then some "127.0.0.1:80" else none
+      (match lnU fs 2 5 R (.obj [("name", .str "l"), ("address", .str "localhost:80"), ("network", .str "TCP")]) with
+      | some x => lnM fs 2 x == .obj [("name", .str "l"), ("address", .str "127.0.0.1:80"), ("network", .str "tcp")]
+      | none => false) &&
+      (match lnU fs 2 5 R (.obj [("address", .str "127.0.0.1:80")]) with
+      | some x => lnM fs 2 x == .obj [("address", .str "127.0.0.1:80"), ("network", .str "tcp")]
+      | none => false) &&
+      (lnU fs 2 5 R (.obj [("name", .str "l")])).isNone &&
+      (lnU fs 2 5 R (.obj [("address", .str "127.0.0.1:80"), ("network", .str "sctp")])).isNone &&
+      (lnU fs 2 5 R (.obj [("address", .str "nohost")])).isNone
+    | none => false) = true := by decide +kernel
+
+/-! ## directory ("dynamic") mode: `clusters_configs` / `router_configs` -/
+
+section Directory
+open MosnVerif.Model.ConfigDir MosnVerif.Model.DirTypes
+
+/-- **dynamic_roundtrip_partial**: let `ops` be file-name operations that end with `+ ext` and `uniqueFileName`, where
+`ext` is the extension the loader reads, and that replace every path separator before (`opsOK`, decided below for the
+regenerated lists).  Then for EVERY directory content `d` (files of any name and body), every list of items `cs` — names
+of any length, colliding after truncation / separator replacement, empty, even repeated — every clock and every item
+codec with `dcd (enc c) = some (nrm c)`: the dump succeeds, and the loader applied to what the dump left returns exactly
+the items dumped (as a permutation: `ReadDir` sorts by file name), each as one (un)marshal cycle leaves it.
+PARTIAL — full statement: the same without `hnames`.  It fails for a name containing a NUL byte (`open` refuses the file
+name, the dump returns the error: KNOWN_FINDINGS `dynnul`, witness below). -/
+theorem dynamic_roundtrip_partial {α : Type} (ops : List NameOp) (hops : opsOK ops Gen.ConfigDir.readExt = true)
+    (enc : α → Json) (dcd : Json → Option α) (nrm : α → α) (hcodec : ∀ c, dcd (enc c) = some (nrm c))
+    (nameOf : α → Bytes) (clock : Nat → Bytes) (hclock : ClockOK clock) (d : Dir) (cs : List α)
+    (hnames : ∀ c ∈ cs, free 0 (nameOf c)) :
+    ∃ d' l, marshalDynamic ops enc nameOf clock d cs = some d' ∧
+      unmarshalDynamic dcd Gen.ConfigDir.readExt d' = some l ∧ l.Perm (cs.map nrm) :=
+  dynamic_roundtrip_gen ops _ hops enc dcd nrm nameOf clock hclock d cs (fun c _ => hcodec c) hnames
+
+/-- the **regenerated** operations of `ClusterManagerConfig.MarshalJSON` and `RouterConfiguration.MarshalJSON` are such
+operations: truncation to `MaxFilePath`, then the separator replacement, then the extension, then `uniqueFileName` -/
+theorem regenerated_name_ops_ok :
+    opsOK Gen.ConfigDir.clusterNameOps Gen.ConfigDir.readExt = true ∧
+    opsOK Gen.ConfigDir.vhostNameOps Gen.ConfigDir.readExt = true := by decide +kernel
+
+/-- clusters in `clusters_configs` mode -/
+theorem dynamic_roundtrip_clusters_partial {α : Type} (enc : α → Json) (dcd : Json → Option α) (nrm : α → α)
+    (hcodec : ∀ c, dcd (enc c) = some (nrm c)) (nameOf : α → Bytes) (clock : Nat → Bytes) (hclock : ClockOK clock)
+    (d : Dir) (cs : List α) (hnames : ∀ c ∈ cs, free 0 (nameOf c)) :
+    ∃ d' l, marshalDynamic Gen.ConfigDir.clusterNameOps enc nameOf clock d cs = some d' ∧
+      unmarshalDynamic dcd Gen.ConfigDir.readExt d' = some l ∧ l.Perm (cs.map nrm) :=
+  dynamic_roundtrip_partial _ regenerated_name_ops_ok.1 enc dcd nrm hcodec nameOf clock hclock d cs hnames
+
+/-- virtual hosts in `router_configs` mode -/
+theorem dynamic_roundtrip_vhosts_partial {α : Type} (enc : α → Json) (dcd : Json → Option α) (nrm : α → α)
+    (hcodec : ∀ c, dcd (enc c) = some (nrm c)) (nameOf : α → Bytes) (clock : Nat → Bytes) (hclock : ClockOK clock)
+    (d : Dir) (cs : List α) (hnames : ∀ c ∈ cs, free 0 (nameOf c)) :
+    ∃ d' l, marshalDynamic Gen.ConfigDir.vhostNameOps enc nameOf clock d cs = some d' ∧
+      unmarshalDynamic dcd Gen.ConfigDir.readExt d' = some l ∧ l.Perm (cs.map nrm) :=
+  dynamic_roundtrip_partial _ regenerated_name_ops_ok.2 enc dcd nrm hcodec nameOf clock hclock d cs hnames
+
+/-- the directory round trip **closed over the regenerated item codec** (`s` = `Cluster` with the operations of
+`ClusterManagerConfig.MarshalJSON`, or `VirtualHost` with those of `RouterConfiguration.MarshalJSON`): the shape of `s`
+unfolds from the regenerated field tables *including* its custom members (HealthCheck, KeepAlive, Host, CircuitBreakers,
+TLS / SDS; Router, RouteAction, ClusterWeight, RetryPolicy — classified from their method bodies, `Gen.ConfigPairs`); for
+every directory, clock and list of values of that shape, the dump succeeds, the loader returns the items as one cycle
+normalises them, and these re-encode to the very same documents — a second dump writes the same set of documents.
+PARTIAL as above (NUL-free names). -/
+theorem dynamic_roundtrip_closed_partial (s : String) (ops : List NameOp) (sh : Shape) (h : shapeOf s = some sh)
+    (hreg : (match shapeOf s with | some sh => keysOK sh | none => false) = true)
+    (hops : opsOK ops Gen.ConfigDir.readExt = true) (clock : Nat → Bytes) (hclock : ClockOK clock) (d : Dir)
+    (cs : List CVal) (hwt : ∀ c ∈ cs, wt sh c = true) (hnames : ∀ c ∈ cs, free 0 (itemName sh c)) :
+    ∃ d' l, marshalDynamic ops (encode sh) (itemName sh) clock d cs = some d' ∧
+      unmarshalDynamic (decode sh) Gen.ConfigDir.readExt d' = some l ∧ l.Perm (cs.map (norm sh)) ∧
+      (l.map (encode sh)).Perm (cs.map (encode sh)) := by
+  rw [h] at hreg
+  obtain ⟨d', l, h1, h2, h3⟩ := dynamic_roundtrip_gen ops _ hops (encode sh) (decode sh) (norm sh) (itemName sh) clock
+    hclock d cs (fun c hc => rt sh hreg c (hwt c hc)) hnames
+  refine ⟨d', l, h1, h2, h3, ?_⟩
+  have h4 := h3.map (encode sh)
+  refine h4.trans ?_
+  rw [List.map_map]
+  have : ∀ c ∈ cs, (encode sh ∘ norm sh) c = encode sh c := fun c hc => en sh c (hwt c hc)
+  rw [List.map_congr_left this]
+
+/-- clusters (`clusters_configs`) and virtual hosts (`router_configs`) with their regenerated shapes -/
+theorem dynamic_roundtrip_clusters_closed_partial (sh : Shape) (h : shapeOf "Cluster" = some sh) (clock : Nat → Bytes)
+    (hclock : ClockOK clock) (d : Dir) (cs : List CVal) (hwt : ∀ c ∈ cs, wt sh c = true)
+    (hnames : ∀ c ∈ cs, free 0 (itemName sh c)) :
+    ∃ d' l, marshalDynamic Gen.ConfigDir.clusterNameOps (encode sh) (itemName sh) clock d cs = some d' ∧
+      unmarshalDynamic (decode sh) Gen.ConfigDir.readExt d' = some l ∧ l.Perm (cs.map (norm sh)) ∧
+      (l.map (encode sh)).Perm (cs.map (encode sh)) :=
+  dynamic_roundtrip_closed_partial "Cluster" _ sh h (by decide +kernel) regenerated_name_ops_ok.1 clock hclock d cs hwt hnames
+
+theorem dynamic_roundtrip_vhosts_closed_partial (sh : Shape) (h : shapeOf "VirtualHost" = some sh) (clock : Nat → Bytes)
+    (hclock : ClockOK clock) (d : Dir) (cs : List CVal) (hwt : ∀ c ∈ cs, wt sh c = true)
+    (hnames : ∀ c ∈ cs, free 0 (itemName sh c)) :
+    ∃ d' l, marshalDynamic Gen.ConfigDir.vhostNameOps (encode sh) (itemName sh) clock d cs = some d' ∧
+      unmarshalDynamic (decode sh) Gen.ConfigDir.readExt d' = some l ∧ l.Perm (cs.map (norm sh)) ∧
+      (l.map (encode sh)).Perm (cs.map (encode sh)) :=
+  dynamic_roundtrip_closed_partial "VirtualHost" _ sh h (by decide +kernel) regenerated_name_ops_ok.2 clock hclock d cs hwt hnames
+
+/-- **dynamic_files**: what the dump leaves — one file per item, pairwise distinct names, each with the extension the
+loader reads; nothing else survives, whatever the directory held -/
+theorem dynamic_files {α : Type} (ops : List NameOp) (hops : opsOK ops Gen.ConfigDir.readExt = true) (enc : α → Json)
+    (nameOf : α → Bytes) (clock : Nat → Bytes) (hclock : ClockOK clock) (d : Dir) (cs : List α)
+    (hnames : ∀ c ∈ cs, free 0 (nameOf c)) :
+    ∃ files : List (Bytes × α), marshalDynamic ops enc nameOf clock d cs = some (files.map (docOf enc)) ∧
+      (files.map (·.1)).Nodup ∧ (∀ p ∈ files, ext p.1 = Gen.ConfigDir.readExt) ∧ files.map (·.2) = cs.reverse :=
+  marshalDynamic_spec ops _ hops enc nameOf clock hclock d cs hnames
+
+/-- **unique_file_name**: `uniqueFileName` never returns a name already written by this dump (its loop ends within
+`|written| + 1` rounds), and leaves a free name alone -/
+theorem unique_file_name (written : List Bytes) (f : Bytes) :
+    uniq written f ∉ written ∧ (f ∉ written → uniq written f = f) :=
+  ⟨uniq_not_mem written f, uniq_of_not_mem written f⟩
+
+/-! non-vacuity and witnesses (names as bytes: `a/b` = [97,47,98], `a_b` = [97,95,98], `.json` = [46,106,115,111,110]) -/
+
+/-- hypotheses of `dynamic_roundtrip_partial` are satisfiable: a directory with a stray file, two colliding names,
+a clock showing digits -/
+example : ClockOK (fun i => dec i) ∧ (∀ c ∈ [[97, 47, 98], [97, 95, 98]], free 0 (c : Bytes)) := by
+  constructor
+  · intro i
+    exact ⟨free_dec 0 (by decide) i, free_dec 47 (by decide) i⟩
+  · intro c hc
+    simp only [List.mem_cons, List.mem_nil_iff, or_false] at hc
+    rcases hc with rfl | rfl <;> intro x hx <;> simp at hx <;> rcases hx with rfl | rfl | rfl <;> decide
+
+/-- the repaired dump on `a/b`, `a_b` (same file name after the separator replacement) over a stale file: two files -/
+example : (match marshalDynamic Gen.ConfigDir.clusterNameOps (fun _ : Bytes => Json.null) id (fun _ => [49])
+      [([120], .junk)] [[97, 47, 98], [97, 95, 98]] with
+    | some d => d.map (·.1) | none => []) =
+    [[97, 95, 98, 95, 49, 46, 106, 115, 111, 110], [97, 95, 98, 46, 106, 115, 111, 110]] := by decide +kernel
+
+/-- the operations BEFORE the repair (commit a55302045): no `uniqueFileName` — `a/b` and `a_b` (likewise two names with a
+common prefix of `MaxFilePath` bytes) went to one file and one item was lost: a defect of the unchanged tree, repaired -/
+example : (match marshalDynamic [.orStamp, .truncate 128 128, .replaceAll 47 [95], .append [46, 106, 115, 111, 110]]
+      (fun _ : Bytes => Json.null) id (fun _ => [49]) [] [[97, 47, 98], [97, 95, 98]] with
+    | some d => d.length | none => 0) = 1 := by decide +kernel
+example : fileName [.orStamp, .truncate 128 128, .replaceAll 47 [95], .append [46, 106, 115, 111, 110]] [] []
+      (List.replicate 128 97 ++ [65]) =
+    fileName [.orStamp, .truncate 128 128, .replaceAll 47 [95], .append [46, 106, 115, 111, 110]] [] []
+      (List.replicate 128 97 ++ [66]) := by decide +kernel
+
+/-- negation witness for the full statement: a NUL byte in a name makes the dump fail -/
+example : (marshalDynamic Gen.ConfigDir.clusterNameOps (fun _ : Bytes => Json.null) id (fun _ => [49]) []
+    [[97, 0, 98]]).isNone = true := by decide +kernel
+
+/-- appending the extension BEFORE the truncation is not `opsOK`: a name of 124 bytes gets the extension `.jso` -/
+example : opsOK [.orStamp, .replaceAll 47 [95], .append [46, 106, 115, 111, 110], .truncate 128 128, .unique]
+      Gen.ConfigDir.readExt = false ∧
+    ext (fileName [.orStamp, .replaceAll 47 [95], .append [46, 106, 115, 111, 110], .truncate 128 128, .unique] [] []
+      (List.replicate 124 97)) = [46, 106, 115, 111] := by decide +kernel
+
+end Directory
+
+/-- the regenerated classification of the custom pairs, and what the big structs unfold to: `Router` is a metadata
+wrapper at member 4 of `RouterConfig`, whose `route` member is a metadata wrapper at member 6 of `RouterActionConfig`;
+`Cluster`, `VirtualHost`, `RouterConfigurationConfig`… unfold; `Listener`, `FilterChain` and the directory pairs do not -/
+example : (kindOf "ClusterWeight" == .metadata "ClusterWeightConfig" "metadata_match" &&
+    kindOf "RouteAction" == .metadata "RouterActionConfig" "metadata_match" &&
+    kindOf "Router" == .metadata "RouterConfig" "metadata" && kindOf "Host" == .metadata "HostConfig" "metadata" &&
+    kindOf "RetryPolicy" == .mirror "RetryPolicyConfig" && kindOf "HealthCheck" == .mirror "HealthCheckConfig" &&
+    kindOf "KeepAlive" == .mirror "KeepAliveConfig" && kindOf "SecretConfigWrapper" == .mirror "SecretConfigWrapperConfig" &&
+    kindOf "CircuitBreakers" == .boxed "Thresholds" && kindOf "FilterChain" == .other && kindOf "Listener" == .other &&
+    kindOf "ClusterManagerConfig" == .other && kindOf "RouterConfiguration" == .other) = true := by decide +kernel
+example : (match shapeOf "Router" with
+    | some (.metaS 4 fs) => (match fs.get? 1 with | some ("route", true, .metaS 6 _) => true | _ => false)
+    | _ => false) = true := by decide +kernel
+example : ((shapeOf "Cluster").isSome && (shapeOf "VirtualHost").isSome && (shapeOf "TLSConfig").isSome &&
+    (shapeOf "Listener").isNone && (shapeOf "FilterChain").isNone && (shapeOf "ClusterManagerConfig").isNone &&
+    (shapeOf "RouterConfiguration").isNone && (shapeOf "MOSNConfig").isNone) = true := by decide +kernel
+/-- nested customs in one cycle: a virtual host whose route has a weighted cluster with non-string metadata and a retry
+policy with a `90s` timeout — the metadata value is dropped, both durations are rewritten, absent timeouts appear -/
+example : (match shapeOf "VirtualHost" with
+    | some sh =>
+      (match decode sh (.obj [("name", .str "v"), ("routers", .arr [.obj [("route", .obj [
+          ("weighted_clusters", .arr [.obj [("cluster", .obj [("name", .str "c"), ("metadata_match", .obj [("filter_metadata",
+            .obj [("mosn.lb", .obj [("z", .str "a"), ("n", .num "1")])])])])]]),
+          ("retry_policy", .obj [("retry_timeout", .str "90s")])])]])]) with
+      | some v => encode sh v == .obj [("name", .str "v"), ("routers", .arr [.obj [("match", .obj []), ("route", .obj [
+          ("weighted_clusters", .arr [.obj [("cluster", .obj [("name", .str "c"), ("metadata_match", .obj [("filter_metadata",
+            .obj [("mosn.lb", .obj [("z", .str "a")])])])])]]),
+          ("timeout", .str "0s"), ("retry_policy", .obj [("retry_timeout", .str "1m30s")])])]])]
+      | none => false)
+    | none => false) = true := by decide +kernel
 
 /-! ## the hand-written shapes of the custom pairs against the regenerated tables -/
 
